@@ -1941,6 +1941,11 @@ def check_C13(work, tier, seed):
     sc0 = gen_c13(seed, "quick")
     sc0.lines = [ln for ln in sc0.lines if "cap=" not in ln or "cap=2" in ln]
     lines0 = conform(work, b0, "C13", seed, sc0.text(), out, tag="-nohook")
+    # ... on every CPU model too: the shipped (guard-off) library, no cap involved at all
+    if cpuid_faulting_available(b0):
+        scc = gen_c13_cpus(seed, tier)
+        scc.lines = [ln for ln in scc.lines if "cap=" not in ln or "cap=2" in ln]
+        lines0 += conform(work, b0, "C13", seed, scc.text(), out, tag="-nohook-cpus")
     # builds in which a back end is NOT compiled in although the CPU supports it: the selection must
     # stop at what is compiled in (and the objects must work)
     for name, v128, v256 in (("no256", 1, 0), ("noSIMD", 0, 0)):
